@@ -314,7 +314,7 @@ def alias_discipline(check: Check) -> None:
         f = p.func(qual)
         check.analysed(f)
         r, rets = ret_terms(f)
-        want = ("call", ("global", "fuzzylite.operation.Operation.class_name"), (("param", "self"),), (("qualname", ("const", True)),))
+        want = ("call", ("global", "fuzzylite.operation.Operation.class_name"), (("param", "self"), ("const", True)), ())
         ok = bool(rets) and all(t[0] == "fstr" and t[1] and t[1][0] == want for _, t in rets)
         check.require(ok, "R5", f"{qual}/prefix", "the representation starts with Op.class_name(self, qualname=True), i.e. the prefix of package_of" if ok else
                       f"representation is {[show(t) for _, t in rets]}", loc(f))
